@@ -173,6 +173,8 @@ def check_C10(ctx):
         ctx.rule("NB-MODE").floor("recvmsg_paths[%s]" % cfg, 3, cfg)
         recv.rule_followup_blocking(ctx, cfg, F)
         ctx.rule("FOLLOWUP-BLOCKING").floor("followup_reads[%s]" % cfg, 1, cfg)
+        recv.rule_msg_commit(ctx, cfg, F)
+        ctx.rule("MSG-COMMIT").floor("error_exits[%s]" % cfg, 1, cfg)
         recv.rule_timeout_arm(ctx, cfg, F)
         ctx.rule("TIMEOUT-ARM").floor("poll_sites[%s]" % cfg, 1, cfg)
     for cfg, F in ctx.configs(["K1", "K3"]):
@@ -247,6 +249,7 @@ def check_C12(ctx):
         ctx.rule("CLOSED-ORIGIN").floor("closed_constructions[%s]" % cfg, 1, cfg)
         recv.rule_errno_fresh(ctx, cfg, F)
         ctx.rule("ERRNO-FRESH").floor("read_sites[%s]" % cfg, 2, cfg)
+        recv.rule_msg_commit(ctx, cfg, F)
         send.rule_frag_route(ctx, cfg, F)
         send.rule_peer_closed(ctx, cfg, F)
         fd.rule_cloexec(ctx, cfg, F, None)
@@ -335,6 +338,7 @@ def check_C02(ctx):
         ctx.rule("DEDICATED-LAST").floor("dedicated_pushes[%s]" % cfg, 1, cfg)
         ctx.rule("DEDICATED-LAST").floor("pops[%s]" % cfg, 1, cfg)
         send.rule_one_packet(ctx, cfg, F)
+        recv.rule_msg_commit(ctx, cfg, F)
     for cfg, F in ctx.configs(["K1"]):
         # delivery through a receiver set: edge-triggered readiness means a member not drained loses (never delivers) messages
         rset.rule_set_unix(ctx, cfg, F)
@@ -457,6 +461,7 @@ def check_C01(ctx):
         ctx.rule("RECV-CAP-CONST").floor("capacity_sites[%s]" % cfg, 1, cfg)
         recv.rule_timeout_arm(ctx, cfg, F)
         ctx.rule("TIMEOUT-ARM").floor("poll_sites[%s]" % cfg, 1, cfg)
+        recv.rule_msg_commit(ctx, cfg, F)
     for cfg, F in ctx.configs(["K1", "K3"]):
         ipcl.rule_whole_buf(ctx, cfg, F)
         ctx.rule("WHOLE-BUF").floor("payload_sites[%s]" % cfg, 4, cfg)
